@@ -526,7 +526,7 @@ def run(chk):
     for ln in out.split("\n"):
         f = ln.split("|")
         if f[0] == "N" and len(f) >= 6:
-            chk.failure({"site": f[1], "condition": "printed-text-differs"},
+            chk.failure({"site": f[1], "condition": "printed-text-differs", "difference": f[6] if len(f) > 6 else "text"},
                         {"entry": f[1], "variable_index": f[2], "return": f[3], "printed": f[4], "cxx_operator_output_default_names": f[5],
                          "meaning": "in a sequence of prints over variables 0,25,26,27,51,52,700,... the text differs from the C++ operator<< with the default variable names"})
         if f[0] == "N0":
